@@ -251,7 +251,7 @@ PROPS = {
     "C18": dict(
         module="Evl.Props.C18Verify",
         theorems=["Evl.C18.reject", "Evl.C18.process_valid", "Evl.C18.sign_failure", "Evl.C18.signed", "Evl.C18.unlisted_not_signed",
-                  "Evl.CloudEvents.b64dec_b64", "Evl.CloudEvents.doc_render", "Evl.C18.signed_verifies"],
+                  "Evl.CloudEvents.b64dec_b64", "Evl.CloudEvents.doc_render", "Evl.C18.signed_verifies", "Evl.C18.unsigned_bytes", "Evl.C18.signed_document_verifies"],
         runs=[dict(model="ce", sub="ce", driver="ce", quick=["-n", "5000"], thorough=["-n", "200000"], search=["-n", "50000"])],
         oracle_prefixes=["C18"], models=["M8b CloudEvents", "M8 Json", "M8r JsonParse", "M8v CloudEventsVerify"],
         trusted_base=TB_COMMON,
